@@ -547,3 +547,22 @@ verus_unit(
         "quantile_function": dict(own=["C03", "C10", "C20"], dep=["C05"], text="ensures: entry(symbol) == (cum, prob) and cum <= q < cum + prob; indices in bounds; the unreachable_unchecked branch is unreachable under the binary_search contract [any table size, all P]"),
     },
 )
+
+# ---------------- Verus unit: ContiguousLookupDecoderModel::quantile_function (lookup_contiguous.rs)
+_LK_DEC = "DecoderModel<PRECISION>\n    for ContiguousLookupDecoderModel<Probability, Cdf, LookupTable, PRECISION>"
+verus_unit(
+    name="lookup", template="lookup_unit.rs.tmpl",
+    widths=["u8_u16", "u16_u32"],   # Probability = u8, u16 (the lookup presets)
+    slots={
+        "QUANTILE": dict(file="src/stream/model/categorical/lookup_contiguous.rs", anchor=_LK_DEC, fn="quantile_function", extra=[
+            (r"if Probability::BITS != PRECISION \{\s*assert!\(", "if Probability::BITS != PRECISION {\n            vassert(", 1),
+            (r"\*self\.lookup_table\.as_ref\(\)\.get_unchecked\(quantile\.into\(\)\)", "self.lookup_table[quantile.p2u()]", 1),
+            (r"let index = index\.into\(\);", "let index = index.p2u();", 1),
+            (r"self\.cdf\.as_ref\(\)", "&self.cdf", 1),
+            (r"\*cdf\.get_unchecked\(([^()]*)\)", r"cdf[\1]", 2),
+        ]),
+    },
+    obligations={
+        "quantile_function": dict(own=["C10", "C03", "C20"], dep=["C05"], text="ensures: both unchecked accesses in bounds for any table size; probability nonzero; cum <= q < cum + prob [all P]"),
+    },
+)
